@@ -191,7 +191,18 @@ def r03_2(ctx):
 def r03_2b(ctx):
     """check_msgdict visits every item and rejects unknown names/types."""
     ai, table = _logging_interp(ctx)
-    fn = ctx.fn(ctx.p.func(CHK, 'check_msgdict'))
+    # what the name is bound to in the module: a function, or a method bound to a module-level helper object
+    try:
+        cm_ref = ctx.f.global_value(ctx.p.module(CHK), 'check_msgdict')
+    except Exception as e:       # noqa: BLE001
+        raise AnalysisError(f'check_msgdict not found in {CHK}: {e}')
+    if isinstance(cm_ref, FuncRef):
+        fn = ctx.fn(cm_ref.info)
+    elif isinstance(cm_ref, tuple) and len(cm_ref) == 3 and cm_ref[0] == 'bound':
+        fn = ctx.fn(cm_ref[2])
+    else:
+        raise AnalysisError(f'check_msgdict in {CHK} is not a function ({cm_ref!r:.80})')
+
     w = ctx.where(fn)
     S = codec.specs(ctx)
     n = 0
@@ -202,7 +213,7 @@ def r03_2b(ctx):
         def thunk():
             d = {'type': t}
             d.update(mk)
-            return ai.call_function(fn, [ADict(d)], {})
+            return ai.apply(cm_ref, [ADict(d)], {}, None)
         outs = ai.explore(thunk)
         n += 1
         if [o.kind for o in outs] != ['return']:
@@ -221,7 +232,7 @@ def r03_2b(ctx):
         def thunk2():
             d = {'type': t, 'bogus_attribute': Opaque('x')}
             d.update(mk)
-            return ai.call_function(fn, [ADict(d)], {})
+            return ai.apply(cm_ref, [ADict(d)], {}, None)
         outs = ai.explore(thunk2)
         ok = all(o.kind == 'raise' and o.exc == 'ValueError' for o in outs)
         ctx.require(ok, 'R03.2', f'check_msgdict({t}).unknown-attribute', w,
@@ -234,13 +245,13 @@ def r03_2b(ctx):
                 d = {'type': t}
                 d.update(mk)
                 d[nm] = () if nm == 'data' else 0
-                return ai.call_function(fn, [ADict(d)], {})
+                return ai.apply(cm_ref, [ADict(d)], {}, None)
             outs = ai.explore(thunk3)
             ok = bool(outs) and all(o.kind == 'raise' and o.exc == 'ValueError' for o in outs)
             ctx.require(ok, 'R03.2', f'check_msgdict({t}).foreign({nm})', w,
                         f'{nm!r} is an attribute of other message types, not of {t}; it is not rejected with ValueError: {outs} '
                         '(the message would carry an attribute its type does not have)', construct=f'{fn.qname}::foreign-attribute')
-    outs = ai.explore(lambda: ai.call_function(fn, [ADict({'type': 'no_such_type', 'time': 0})], {}))
+    outs = ai.explore(lambda: ai.apply(cm_ref, [ADict({'type': 'no_such_type', 'time': 0})], {}, None))
     ctx.require(all(o.kind == 'raise' and o.exc == 'ValueError' for o in outs), 'R03.2', 'check_msgdict.unknown-type', w,
                 f'unknown type outcomes: {outs}', construct=f'{fn.qname}::unknown-type')
     for q in ai.inlined:
@@ -493,22 +504,48 @@ def r03_5(ctx):
     base = ctx.p.cls(MSG, 'Message')
     o, fd = ctx.p.lookup_method(base, 'from_dict')
     o, fs = ctx.p.lookup_method(base, 'from_str')
-    for fn, argtxt in ((fd, None), (fs, None)):
-        if fn is None:
-            raise AnalysisError('from_dict/from_str not found')
-        ctx.fn(fn)
-        clsparam = fn.params()[0]
-        rets = [n for n in astq.walk_shallow(fn.node) if isinstance(n, ast.Return)]
-        ok = bool(rets)
-        for r in rets:
-            c = r.value
-            good = isinstance(c, ast.Call) and isinstance(c.func, ast.Name) and c.func.id == clsparam and not c.args \
-                and len(c.keywords) == 1 and c.keywords[0].arg is None
-            ok = ok and good
-            ctx.call_sites += 1
-        ctx.require(ok, 'R03.5', fn.name, ctx.where(fn),
-                    f'{fn.name} does not return {clsparam}(**<dict>) (the checked constructor, no skip_checks)',
-                    construct=f'{fn.qname}::funnel')
+    if fd is None or fs is None:
+        raise AnalysisError('from_dict/from_str not found')
+    ctx.fn(fd)
+    ctx.fn(fs)
+    # decided by executing them (not by the shape of their return statement): what they hand out went through the checks -
+    # a valid dict / text gives the message with exactly those values and the defaults, an out-of-range or ill-typed value,
+    # an attribute of another type and an unknown type are refused, and nothing is built on the side
+    from ..fold import ClassRef
+    from .. import strdom
+    ai = codec.make_interp(ctx, data_checked=False)
+    strdom.install(ai)
+    good = {'type': 'note_on', 'note': 5, 'channel': 3}
+    want = {'type': 'note_on', 'channel': 3, 'note': 5, 'velocity': 64, 'time': 0}
+    cases = [('valid', dict(good), None), ('velocity 200', dict(good, velocity=200), ('ValueError',)), ('note -1', dict(good, note=-1), ('ValueError',)),
+             ('channel 1.5', dict(good, channel=1.5), ('TypeError',)), ('attribute of another type', dict(good, pitch=0), ('ValueError', 'TypeError', 'AttributeError')),
+             ('unknown type', {'type': 'no_such_message'}, ('ValueError', 'LookupError', 'KeyError')), ('time as text', dict(good, time='x'), ('TypeError',))]
+    for label, d, excs in cases:
+        outs = ai.explore(lambda: ai.call_function(fd, [ClassRef(base), ADict(dict(d))], {}))
+        ctx.call_sites += 1
+        if excs is None:
+            ok = len(outs) == 1 and outs[0].kind == 'return' and isinstance(outs[0].value, AObj) and outs[0].value.cls is base \
+                and {k: v for k, v in outs[0].value.attrs.items()} == want
+        else:
+            ok = bool(outs) and all(o_.kind == 'raise' and o_.exc in excs for o_ in outs)
+        ctx.require(ok, 'R03.5', f'from_dict({label})', ctx.where(fd),
+                    f'from_dict({d}) gives {outs}; expected ' + ('the message with these values and the defaults' if excs is None else f'a refusal ({"/".join(excs)})')
+                    + ' - it must go through the checked constructor', construct=f'{fd.qname}::funnel')
+    for label, text, excs in (('valid', 'note_on channel=3 note=5', None), ('velocity 200', 'note_on velocity=200', ('ValueError',)),
+                              ('attribute of another type', 'note_on pitch=0', ('ValueError',)), ('unknown type', 'no_such_message', ('ValueError',)),
+                              ('a constructor parameter as a word', 'note_on skip_checks=1 velocity=200', ('ValueError',))):
+        outs = ai.explore(lambda: ai.call_function(fs, [ClassRef(base), text], {}))
+        ctx.call_sites += 1
+        if excs is None:
+            ok = len(outs) == 1 and outs[0].kind == 'return' and isinstance(outs[0].value, AObj) and outs[0].value.cls is base \
+                and {k: v for k, v in outs[0].value.attrs.items()} == want
+        else:
+            ok = bool(outs) and all(o_.kind == 'raise' and o_.exc in excs for o_ in outs)
+        ctx.require(ok, 'R03.5', f'from_str({label})', ctx.where(fs),
+                    f'from_str({text!r}) gives {outs}; expected ' + ('the message with these values and the defaults' if excs is None else f'a refusal ({"/".join(excs)})'),
+                    construct=f'{fs.qname}::funnel')
+    for q in ai.inlined:
+        ctx.functions.add(q)
     # writes to message state inside from_str/from_dict are forbidden (handled by R03.1 scan)
     sd = ctx.p.cls(MSG, 'SysexData')
     ia = sd.methods.get('__iadd__')
